@@ -225,8 +225,17 @@ NUMA_LOOPS_LOCAL = {
 }
 # ... and "workers" (the worker index num_thread stays below num_threads: sums of the per-socket / per-core counters)
 WSZ = "num_pus->size == num_threads && affinities->size == num_threads"
-NUMA_W_COMMON = "%s && %s && num_pus_cores.sum_known && num_pus_cores.total <= num_threads_socket.c_val && VV_WF(num_pus_cores) && !vx_exc && %s" % (
+RANGES = ("num_threads <= VX_BIG && num_thread <= VX_BIG && num_threads_socket.scan_prefix <= VX_BIG && num_threads_socket.c_val <= VX_BIG && "
+          "num_pus_cores.scan_prefix <= VX_BIG && num_pus_cores.c_val <= VX_BIG && num_pus_cores.total <= VX_BIG")
+F12 = ("num_threads_socket.scan_prefix + num_threads_socket.c_val <= num_threads && "
+       "num_threads_socket.scan_prefix + num_pus_cores.total <= num_threads")
+F3 = "num_threads_socket.scan_prefix + num_pus_cores.scan_prefix + num_pus_cores.c_val <= num_threads"
+NUMA_W_COMMON = RANGES + " && " + F12 + " && %s && %s && num_pus_cores.sum_known && num_pus_cores.total <= num_threads_socket.c_val && VV_WF(num_pus_cores) && !vx_exc && %s" % (
     SCAN_AT(NTS, "n"), NTS_TOT, WSZ)
+NUMA_W_OUTER = ("(num_core == 0 ? (!num_pus_cores.scan_valid && num_thread <= num_threads_socket.scan_prefix) : "
+                "(%s && %s && num_thread <= num_threads_socket.scan_prefix + num_pus_cores.scan_prefix + num_pus_cores.c_val))" % (SCAN_AT("num_pus_cores", "num_core - 1"), F3))
+NUMA_W_INNER = ("((num_pu == 0 && %s) || (%s && %s && num_pu <= num_pus_cores.c_val && num_thread <= num_threads_socket.scan_prefix + num_pus_cores.scan_prefix + num_pu))"
+                % (NUMA_W_OUTER, SCAN_AT("num_pus_cores", "num_core"), F3))
 NUMA_LOOPS_WORKERS = {
     1: "__CPROVER_assigns(n, num_cores_socket)\n__CPROVER_loop_invariant(n <= num_sockets)",
     2: "__CPROVER_assigns(n, core_offset, pus_t, num_pus_socket, num_cores_socket, g_invalid_pair)\n__CPROVER_loop_invariant(n <= num_sockets)",
@@ -247,9 +256,9 @@ NUMA_LOOPS_WORKERS = {
            NTS_TOT, NPC1, SCAN_AT(NTS, "n")),
     9: "__CPROVER_assigns(pu_index, use_pu, g_invalid_pair)\n__CPROVER_loop_invariant(!use_pu)",
     10: "__CPROVER_assigns(num_core, num_thread, num_cores_socket, num_pus_cores, pu_indexes, OUT_FRAME, PI_FRAME, ERR_FRAME)\n"
-        "__CPROVER_loop_invariant(%s && %s)" % (NUMA_W_COMMON, NUMA_P2_OUTER),
+        "__CPROVER_loop_invariant(%s && %s)" % (NUMA_W_COMMON, NUMA_W_OUTER),
     11: "__CPROVER_assigns(num_pu, num_thread, num_pus_cores, pu_indexes, OUT_FRAME, PI_FRAME, ERR_FRAME)\n"
-        "__CPROVER_loop_invariant(%s && %s)" % (NUMA_W_COMMON, NUMA_P2_INNER),
+        "__CPROVER_loop_invariant(%s && %s)" % (NUMA_W_COMMON, NUMA_W_INNER),
     "count": 11,
 }
 # P_PAIR: what is stored for worker k satisfies the property predicates; the victim cell of pu_indexes holds a PU of
